@@ -22,6 +22,9 @@ def gen_struct(rng, sname, gnames=None):
             elif k < 0.5 or not fields:
                 sz = rng.choice([0, 1, 2, 3, 4, 8, 16, 100, 255, 256, 1000])
                 etxt = str(sz)
+                if fields and rng.random() < 0.08:
+                    # a field that steps back (an overlay): its size is the negative number written
+                    sz = -rng.choice([1, 2, 12, 100]); etxt = "0 - %d" % -sz if rng.random() < 0.5 else "-%d" % -sz
             elif k < 0.75:
                 f = rng.choice(fields)
                 sz = f[1] + 1
@@ -47,6 +50,9 @@ def gen_struct(rng, sname, gnames=None):
             if gnames and rng.random() < 0.3:
                 g = rng.choice(sorted(gnames)); n = gnames[g]
                 lines.append("  @ds %s" % g); size += n
+            elif size > 40 and rng.random() < 0.1:
+                n = -rng.choice([1, 5, 33])
+                lines.append("  @ds %d" % n); size += n
             else:
                 lines.append("  @ds %d" % n); size += n
         else:
@@ -75,11 +81,13 @@ def run(ck):
         sname = rng.choice(["Spr", "Pnt", "Obj9"])
         gnames = {"fld%d" % k: rng.choice([3, 6, 9, 20]) for k in rng.sample(range(12), rng.choice([0, 0, 2, 4]))}
         lines, fields, total = gen_struct(rng, sname, gnames)
-        probes = ["@dw %s" % sname] + ["@dw %s.%s" % (sname, f[0]) for f in fields] + ["@dw @sizeof %s.%s" % (sname, f[0]) for f in fields]
         vals = [total] + [f[1] for f in fields] + [f[2] for f in fields]
+        # (negative sizes and offsets are shown through a 16-bit mask: a bare negative number does not fit a word)
+        pr = "@dw ( %s ) & $ffff" if any(v < 0 for v in vals) else "@dw %s"
+        probes = [pr % sname] + [pr % ("%s.%s" % (sname, f[0])) for f in fields] + [pr % ("@sizeof %s.%s" % (sname, f[0])) for f in fields]
         text = ["@org $200"] + ["@defn %s, %d" % kv for kv in sorted(gnames.items())] + ["glob1:"] + probes + ["@struct " + sname] + lines + ["@endstruct", ".after1:"] + probes + ["@dw glob1.after1"]
         after_addr = 0x200 + 2 * len(probes)
-        if any(v > 0xFFFF or v < 0 for v in vals):
+        if any(v > 0xFFFF for v in vals) and not any(v < 0 for v in vals):
             e = "DIAG"
         else:
             e = "OK " + (b"".join(le16(v) for v in vals) * 2 + le16(after_addr)).hex()
